@@ -300,7 +300,7 @@ func absI64(x int64) int64 {
 
 func runC05(c *explore.Ctx) {
 	c.Level = "model_checking"
-	c.Rule = "E2 (virtual clock): every sequence of connect variants (v3/v5, clean 0/1, expiry absent/5/MAX; a connect while connected is a take-over), subscribe, helper publish, DISCONNECT (with/without new expiry), abrupt close, TerminateSession and clock advances (4s/6s/21s) up to the depth for config session_expiry 10s and 2h, on a fresh in-process broker; reference session model (ends_at = end of last connection + effective expiry) decides Session Present, delivery of offline QoS1 messages and whether the subscription survived; a probe publish after every connect observes the subscription. E3: simultaneous CONNECTs with one client id under all schedules with <=k preemptions."
+	c.Rule = "E2 (virtual clock): every sequence of connect variants (v3/v5, clean 0/1, expiry absent/5/MAX; a connect while connected is a take-over), subscribe, helper publish, DISCONNECT (with/without new expiry), abrupt close, TerminateSession and clock advances (4s/6s/21s) up to the depth for config session_expiry 10s and 2h, on a fresh in-process broker; reference session model (ends_at = end of last connection + effective expiry) decides Session Present, delivery of offline QoS1 messages and whether the subscription survived; a probe publish after every connect observes the subscription. E3: simultaneous CONNECTs with one client id, and TerminateSession racing the client's own disconnect, under all schedules with <=k deviations."
 	c.Trusted = []string{"vsched scheduler, virtual clock and memconn", "refmqtt codec"}
 	c.Assumptions = []string{"a reconnect within 1s of the computed expiry instant is accepted either way", "DISCONNECT may only lower the expiry to a value <= configured maximum (statement silent on capping)"}
 	if rc := replayCase(c); rc != nil {
@@ -452,6 +452,59 @@ func c05TakeoverBody(obs *c05TakeoverObs, n int, offlineSession bool, clean bool
 	}
 }
 
+// c05TerminateRace: the client's own disconnect races an administrative
+// TerminateSession: once TerminateSession has returned and the system is quiescent the
+// session is gone whatever the interleaving (Session Present 0, no subscription, no
+// queued message on the next Clean Start 0 CONNECT).
+func c05TerminateRaceBody(obs *c05TakeoverObs, ending int) func() {
+	return func() {
+		*obs = c05TakeoverObs{}
+		bad := func(rule, class, detail string) { obs.problems = append(obs.problems, [3]string{rule, class, detail}) }
+		w := harness.NewWorld(harness.DefaultConfig(), server.Hooks{})
+		h := w.Dial("H")
+		h.Connect(harness.ConnectOpts{ClientID: "helper", Clean: true, Version: refmqtt.V5})
+		props := func() *refmqtt.Props { return &refmqtt.Props{SessionExpiry: harness.U32(3600)} }
+		x := w.Dial("X")
+		x.Connect(harness.ConnectOpts{ClientID: "c", Clean: true, Version: refmqtt.V5, Props: props()})
+		x.Subscribe(0, refmqtt.Sub{Filter: "a", QoS: 1})
+		vsched.Go("client-ends", func() {
+			if ending == 1 {
+				x.Send(&refmqtt.Packet{Type: refmqtt.DISCONNECT})
+			}
+			x.Close()
+		})
+		vsched.Go("terminate", func() { w.Srv.ClientService().TerminateSession("c") })
+		vsched.Settle()
+		if s, _ := w.Srv.ClientService().GetSession("c"); s != nil {
+			bad("resume-iff", "session-survives-TerminateSession-racing-the-client's-own-disconnect", "GetSession still returns it")
+		}
+		h.Send(&refmqtt.Packet{Type: refmqtt.PUBLISH, Topic: "a", QoS: 1, PacketID: 1, Payload: []byte("offline")})
+		vsched.Settle()
+		y := w.Dial("Y")
+		ack := y.Connect(harness.ConnectOpts{ClientID: "c", Clean: false, Version: refmqtt.V5, Props: props()})
+		vsched.Settle()
+		got := 0
+		for _, r := range y.Recv() {
+			if r.P != nil && r.P.Type == refmqtt.PUBLISH {
+				got++
+			}
+		}
+		switch {
+		case ack == nil || ack.Code != 0:
+			bad("liveness", "connect-after-terminate-refused", fmt.Sprint(ack))
+		case ack.SessionPresent:
+			bad("resume-iff", "session-present-1-after-TerminateSession", fmt.Sprintf("messages delivered: %d", got))
+		case got != 0:
+			bad("resume-iff", "subscription-or-queue-survived-TerminateSession", fmt.Sprint(got))
+		}
+		if p := w.SwallowedPanic(); p != "" {
+			bad("no-panic", "recovered: "+trimTo(p, 80), p)
+		}
+		obs.outcome = fmt.Sprint(ack != nil && ack.SessionPresent, got)
+		obs.done = true
+	}
+}
+
 func schedScenario(c *explore.Ctx, name string, bound int, obsProblems func() [][3]string, outcome func() string, body func(), extra map[string]any) {
 	explore.DFS(c, explore.DFSConfig{Name: name, Bound: bound, Body: body, ShardDepth: 1, Check: func(r *vsched.Result, choices []int) {
 		cas := func() any {
@@ -494,6 +547,11 @@ func c05Takeover(c *explore.Ctx) {
 	scs := []sc{{2, false, true}, {2, true, false}, {2, true, true}}
 	if !c.Quick() {
 		scs = append(scs, sc{3, false, true}, sc{2, false, false})
+	}
+	for ending := 0; ending < 2; ending++ {
+		obs := &c05TakeoverObs{}
+		name := fmt.Sprintf("terminate-vs-%s", []string{"socket-close", "disconnect"}[ending])
+		schedScenario(c, name, bound, func() [][3]string { return obs.problems }, func() string { return obs.outcome }, c05TerminateRaceBody(obs, ending), map[string]any{"ending": ending})
 	}
 	for _, s := range scs {
 		obs := &c05TakeoverObs{}
